@@ -643,7 +643,7 @@ def d12_no_user_code_after_self_destruction(facts, rep):
     reachable after the destructor call can raise a user exception (user operations by template-parameter type, `throw`,
     allocation; interprocedural), unless it runs under a catch(...) handler."""
     from rules.common import MayThrow
-    mt = MayThrow(facts, external_may_throw=False)
+    mt = MayThrow(facts, external_may_throw=False, library_throws=False)
     n = 0
     for fn in sorted(facts.fns.values(), key=lambda f: f.q):
         if not fn.q.startswith('tbb::detail::') or fn.kind != 'method':
@@ -686,7 +686,7 @@ def d12_fold_tolerates_throwing_join(facts, rep):
     it back on the exceptional path - otherwise the repeated fold decrements the counter below zero and the tree is never
     unwound to the root.  Decided with exit_coverage on every instantiation of the derived tree folds."""
     from rules.common import MayThrow, tree_folds, _refcount_decrement
-    mt = MayThrow(facts, external_may_throw=False)
+    mt = MayThrow(facts, external_may_throw=False, library_throws=False)
     summ = Summaries(facts, max_depth=3)
 
     def gives_back(g, pos, e):
@@ -719,7 +719,7 @@ def d13_constructor_reservations(facts, rep):
     exception reaches the caller of try_put, but the counter never returns to zero and wait_for_all() blocks for ever - the
     graph is not "reusable afterwards"."""
     from rules.common import MayThrow
-    mt = MayThrow(facts, external_may_throw=False)
+    mt = MayThrow(facts, external_may_throw=False, library_throws=False)
 
     def reserves(g, e):
         if not isinstance(e, int) or g.nodes[e].get('k') != 'call':
@@ -734,12 +734,24 @@ def d13_constructor_reservations(facts, rep):
         return q.endswith('::release') and ('wait_tree_vertex_interface' in q or 'wait_context' in q or 'reference_vertex' in q)
     n = 0
     done = set()
+    # one named exception, with its reason (replayed: /tmp-free probe in findings/C03-graph-task-constructor-throws/README.md)
+    EXCEPTIONS = {
+        D2 + 'trackable_messages_graph_task':
+            'preview feature try_put_and_wait: the references reserved by this constructor belong to the wait context of ONE message, a '
+            'local of the try_put_and_wait call that is being unwound by the same exception - nobody waits on it afterwards (a throwing '
+            'message copy makes try_put_and_wait throw and leaves the graph usable on the pinned tree); the graph-wide reference is the '
+            'one reserved by the base class graph_task',
+    }
     for fn in sorted(facts.fns.values(), key=lambda f: f.q):
         if fn.kind != 'ctor' or not fn.q.startswith('tbb::detail::') or fn.cls in done:
             continue
         if not any(reserves(fn, e) for _, _, e in fn.iter_elems()):
             continue
         cls = fn.cls
+        if cls in EXCEPTIONS:
+            done.add(cls)
+            rep.note('D13 %s: recorded exception -- %s' % (cls.split('::')[-1], EXCEPTIONS[cls]))
+            continue
         done.add(cls)
         derived = [p for p, cs in facts.classes.items() if any(cls in c.get('allbases', ()) for c in cs)]
         throwing = []
@@ -769,7 +781,7 @@ def d13_storage_of_failed_constructions(facts, rep):
     includes what was allocated for an object that never came to life).  Decided with exit_coverage on every instantiation
     whose constructor may throw."""
     from rules.common import MayThrow
-    mt = MayThrow(facts, external_may_throw=False)
+    mt = MayThrow(facts, external_may_throw=False, library_throws=False)
     summ = Summaries(facts, max_depth=2)
 
     def gives_back(g, pos, e):
